@@ -127,7 +127,7 @@ func TestVerifC44(t *testing.T) {
 	}()
 	MaxAge = 1 << 30
 	th := &core.Thread{}
-	n := vk.N(600, 40000)
+	n := vk.N(1500, 40000)
 	for h := 0; h < n; h++ {
 		r := vk.RandFor(44, h)
 		fk := []byte{schema.Block, schema.Cascade, schema.CascadeUpdates}[h%3]
